@@ -265,8 +265,10 @@ func (v *vAdvertiser) run() (cancel func(), done chan error) {
 
 var errInjected = errors.New("verif: injected error")
 
+// rs is a valid router solicitation; like a real ndp.Conn the fake attaches the interface zone to the
+// source address (the listener is the one that must strip it).
 func rs(from string) vRead {
-	return vRead{msg: &ndp.RouterSolicitation{}, hop: ndp.HopLimit, from: netip.MustParseAddr(from)}
+	return vRead{msg: &ndp.RouterSolicitation{}, hop: ndp.HopLimit, from: netip.MustParseAddr(from).WithZone("v0")}
 }
 
 // metricVal reads one sample of a Memory-backed Metrics ("k=v,k=v" label key); 0 when absent.
